@@ -910,6 +910,14 @@ class Emitter:
         if vt.is_ref:
             if not init:
                 raise ExtractionError("reference without initialiser")
+            s0 = self._strip(init[0])
+            if init[0].get("valueCategory") == "prvalue" or s0.get("valueCategory") == "prvalue" or \
+                    any(x.get("kind") == "MaterializeTemporaryExpr" for x in (init[0], init[0].get("inner", [{}])[0] if init[0].get("inner") else {})):
+                # a reference bound to a temporary: the temporary becomes the variable itself (lifetime extension)
+                self.report["references bound to temporaries turned into value variables"] += 1
+                vv = vt.pointee()
+                vv.const = False
+                return pad + "%s = %s;" % (vv.decl(name), self.expr(init[0]))
             self.cur["refs"][v["id"]] = True
             return pad + "%s = &(%s);" % (vt.decl(name), self.lvalue(init[0]))
         st = "static " if v.get("storageClass") == "static" else ""
@@ -1392,7 +1400,13 @@ class Emitter:
 
     def addr_of(self, a, pt=None):
         s = self._strip(a)
-        if a.get("valueCategory") == "lvalue" or s.get("valueCategory") == "lvalue":
+        is_temp = False
+        x = a
+        while x.get("kind") in ("ExprWithCleanups", "ImplicitCastExpr", "CXXBindTemporaryExpr", "ParenExpr") and x.get("inner"):
+            x = x["inner"][0]
+        if x.get("kind") == "MaterializeTemporaryExpr" and s.get("valueCategory") == "prvalue":
+            is_temp = True
+        if not is_temp and (a.get("valueCategory") == "lvalue" or s.get("valueCategory") == "lvalue"):
             e = self.expr(a)
             if e.startswith("(*") and e.endswith(")") and re.match(r"^\(\*\w+\)$", e):
                 return e[2:-1]
